@@ -6,7 +6,8 @@ From Coq Require Import Lia ZifyN ZifyNat ZifyBool Permutation.
 (* what a selected phantom must satisfy w.r.t. the network it was taken from *)
 Definition good (p : pnet) (ph : phantom) : Prop :=
   contains (fst p) (eff_fam (fst p)) (be_to_N (p_bytes ph)) /\
-  blen (p_bytes ph) * 8 = bits (eff_fam (fst p)) /\
+  (blen (p_bytes ph) * 8 = bits (eff_fam (fst p)) /\
+   ip_is4 (p_bytes ph) = family_eqb (eff_fam (fst p)) V4) /\
   p_rand_port ph = snd p.
 
 Definition from_cfg (cfg : config) (p : pnet) : Prop :=
@@ -74,17 +75,26 @@ Lemma addr_len_bits : forall c, addr_len c * 8 = bits (eff_fam c).
 Proof. intros c. unfold addr_len. destruct (eff_fam c); reflexivity. Qed.
 
 Lemma addr_bytes_ok : forall c a b, addr_bytes c a = Ok b ->
-  be_to_N b = a /\ blen b * 8 = bits (eff_fam c).
+  be_to_N b = a /\ (blen b * 8 = bits (eff_fam c) /\ ip_is4 b = family_eqb (eff_fam c) V4).
 Proof.
   intros c a b H. unfold addr_bytes in H.
   destruct (N.size a <=? 8 * addr_len c) eqn:E; [|discriminate].
-  inversion H; subst. split.
-  - apply be_to_N_to_be_size. exact E.
+  destruct ((addr_len c =? 16) && (a / 2 ^ 32 =? 65535)) eqn:E4; [discriminate|].
+  inversion H; subst.
+  assert (Hb : be_to_N (N_to_be (addr_len c) a) = a) by (apply be_to_N_to_be_size; exact E).
+  split; [exact Hb|]. split.
   - rewrite N_to_be_length. apply addr_len_bits.
+  - unfold ip_is4. rewrite N_to_be_length, Hb. unfold addr_len in *.
+    destruct (eff_fam c); cbn [bits family_eqb] in *.
+    + reflexivity.
+    + change (128 / 8) with 16 in *. cbn in E4. cbn. exact E4.
 Qed.
 
 Lemma addr_bytes_no_panic : forall c a, addr_bytes c a <> Panic.
-Proof. intros. unfold addr_bytes. destruct (N.size a <=? 8 * addr_len c); discriminate. Qed.
+Proof.
+  intros. unfold addr_bytes. destruct (N.size a <=? 8 * addr_len c); [|discriminate].
+  destruct ((addr_len c =? 16) && (a / 2 ^ 32 =? 65535)); discriminate.
+Qed.
 
 Lemma addr_from_offset_good : forall p off ph, addr_from_offset p off = Ok ph -> good p ph.
 Proof.
